@@ -8,3 +8,11 @@
 mod u2f_cex;
 #[cfg(kani)]
 mod status;
+#[cfg(kani)]
+mod hid_send;
+#[cfg(kani)]
+mod u2f_enc;
+#[cfg(kani)]
+mod choose_alg;
+#[cfg(kani)]
+mod ad_enc;
